@@ -62,22 +62,12 @@ func (c *Ctx) ruleSeenFields(rule, fnKey, singularKey, readKey string) {
 		found, _ := g.Forward(g.Entry(), Search{
 			Target: func(n ast.Node) bool { p, ok := g.where[n]; return ok && p == sp2 },
 			EdgeBarrier: func(b *cfgBlock, succ int) bool {
-				cond := blockCond(b)
-				if cond == nil {
-					return false
-				}
-				core, neg := stripNot(cond)
-				coreTrue := (succ == 0) != neg
-				// seenOneofs.Has false edge
-				if call, ok := core.(*ast.CallExpr); ok && !coreTrue && nodeHasCallOn(info, call, hasKey, isOneof) != nil {
-					return true
-				}
-				// od != nil false edge / od == nil true edge
-				if be, ok := core.(*ast.BinaryExpr); ok {
-					if isNilIdent(info, be.Y) && isOneofDescExpr(info, be.X) {
-						if (be.Op.String() == "!=" && !coreTrue) || (be.Op.String() == "==" && coreTrue) {
-							return true
-						}
+				for _, a := range edgeAtoms(b, succ) {
+					if call, ok := a.E.(*ast.CallExpr); ok && !a.Val && nodeHasCallOn(info, call, hasKey, isOneof) != nil {
+						return true
+					}
+					if oneofNilEdge(info, a) {
+						return true
 					}
 				}
 				return false
@@ -90,14 +80,10 @@ func (c *Ctx) ruleSeenFields(rule, fnKey, singularKey, readKey string) {
 			Target:  func(n ast.Node) bool { p, ok := g.where[n]; return ok && p == sp2 },
 			Barrier: func(n ast.Node) bool { return nodeHasCallOn(info, n, setKey, isOneof) != nil },
 			EdgeBarrier: func(b *cfgBlock, succ int) bool {
-				cond := blockCond(b)
-				if cond == nil {
-					return false
-				}
-				core, neg := stripNot(cond)
-				coreTrue := (succ == 0) != neg
-				if be, ok := core.(*ast.BinaryExpr); ok && isNilIdent(info, be.Y) && isOneofDescExpr(info, be.X) {
-					return (be.Op.String() == "!=" && !coreTrue) || (be.Op.String() == "==" && coreTrue)
+				for _, a := range edgeAtoms(b, succ) {
+					if oneofNilEdge(info, a) {
+						return true
+					}
 				}
 				return false
 			},
@@ -120,4 +106,13 @@ func isOneofDescExpr(info *typesInfo, e ast.Expr) bool {
 		return false
 	}
 	return namedTypeName(tv.Type) == "reflect/protoreflect.OneofDescriptor"
+}
+
+// oneofNilEdge: the fact establishes that the field's containing oneof is nil.
+func oneofNilEdge(info *typesInfo, a atomVal) bool {
+	be, ok := a.E.(*ast.BinaryExpr)
+	if !ok || !isNilIdent(info, be.Y) || !isOneofDescExpr(info, be.X) {
+		return false
+	}
+	return (be.Op.String() == "!=" && !a.Val) || (be.Op.String() == "==" && a.Val)
 }
